@@ -32,7 +32,10 @@ def show_req(req):
         if p["sess"] != -1:
             s += ",sess=%d" % p["sess"]
         if p["deltas"]:
-            s += ",deltas=%s,pkey=%s" % (p["deltas"], p["pkey"])
+            # (deltas that do not fit a TLC integer are given as decimal digits in "bd")
+            bd = p.get("bd") or []
+            ds = [int(key(bd[i])) if i < len(bd) and bd[i] else d for i, d in enumerate(p["deltas"])]
+            s += ",deltas=%s,pkey=%s" % (ds, p["pkey"])
         for ix in p["idx"]:
             s += ",%s:%s" % (key(ix["n"]), key(ix["k"]))
         out.append(s + ")")
